@@ -691,10 +691,20 @@ class LevelOverhangByConstituency:
         cty_results = self.constituency_evaluator.evaluate(
             votes, n_seats, max_seats=max_seats,
         )
+        prop_parties = {
+            party for cty_prop_seats in cty_results.values()
+            for party in cty_prop_seats
+        }
         lowest_allowed = votelib.convert.VoteTotals().convert({
             cty: {
-                party: max(prev_gains.get(cty, {}).get(party, 0), prop_seats)
-                for party, prop_seats in cty_prop_seats.items()
+                party: max(
+                    prev_gains.get(cty, {}).get(party, 0),
+                    cty_prop_seats.get(party, 0),
+                )
+                for party in list(cty_prop_seats) + [
+                    party for party in prev_gains.get(cty, {})
+                    if party in prop_parties and party not in cty_prop_seats
+                ]
             }
             for cty, cty_prop_seats in cty_results.items()
         })
